@@ -43,7 +43,7 @@ pub fn run(args: &Args) -> Report {
         let ndocs = if args.thorough { 6000 } else { 500 };
         for d in 0..ndocs {
             let version = [6u8, 6, 6, 5, 4, 3, 2, 1][d % 8];
-            let opts = GenOpts { version, deprecated: d % 3 == 0, opt_prob: [20, 45][d % 2], comments: d % 4 == 0, ..GenOpts::default() };
+            let opts = GenOpts { version, deprecated: d % 3 == 0, opt_prob: [20, 45][d % 2], comments: d % 4 == 0, param_comments: d % 4 == 0, ..GenOpts::default() };
             let toks = gen_document(&g, &mut rng, opts);
             let layout = [Layout::Canonical, Layout::Wild][d % 2];
             let seed = rng.next();
